@@ -18,17 +18,23 @@ theorem run_snoc (fixed : Bool) (c : Nat) (st : St) (hist : List In) (i : In) :
   | nil => simp [run, stAfter]
   | cons x xs ih => simp [run, stAfter, ih]
 
-/-- the history ends with an accepted proof message for client key `a`, followed only by messages that do not
-    touch the controller (`noop`) -/
+theorem stAfter_snoc (fixed : Bool) (c : Nat) (st : St) (hist : List In) (i : In) :
+    stAfter fixed c st (hist ++ [i]) = (step fixed c (stAfter fixed c st hist) i).1 := by
+  simp [stAfter, List.foldl_append]
+
+/-- the history ends with an accepted proof message for client key `a` — a proof made for the SRP session of the
+    exchange that was current when it was sent — followed only by messages that do not touch the controller (`noop`) -/
 def ProvedNow (c : Nat) (hist : List In) (a : Nat) : Prop :=
-  ∃ pre post, hist = pre ++ [In.m3 (.good a) (.validFor c a true)] ++ post ∧ ∀ x ∈ post, x.noop = true
+  ∃ pre post, hist = pre ++ [In.m3 (.good a) (.validFor c (stAfter true c init pre).epoch a true)] ++ post ∧
+    ∀ x ∈ post, x.noop = true
 
 /-- invariant of the repaired controller: being at `verifyResp` means the session key and the encryption key come
-    from a setup-code proof verified in the current exchange -/
+    from a setup-code proof verified in the current exchange, for the SRP session of that exchange -/
 def Inv (c : Nat) (hist : List In) (st : St) : Prop :=
-  st.step = .verifyResp → ∃ a, ProvedNow c hist a ∧ st.S = .srp c a ∧ st.K = .ofS (.srp c a)
+  st = stAfter true c init hist ∧
+  (st.step = .verifyResp → ∃ a, ProvedNow c hist a ∧ st.S = .srp c st.epoch a ∧ st.K = .ofS (.srp c st.epoch a))
 
-theorem inv_init (c : Nat) : Inv c [] init := by simp [Inv, init]
+theorem inv_init (c : Nat) : Inv c [] init := by simp [Inv, init, stAfter]
 
 theorem provedNow_snoc_noop {c hist a} (i : In) (h : ProvedNow c hist a) (hi : i.noop = true) :
     ProvedNow c (hist ++ [i]) a := by
@@ -41,6 +47,8 @@ theorem provedNow_snoc_noop {c hist a} (i : In) (h : ProvedNow c hist a) (hi : i
 
 theorem inv_step (c : Nat) (hist : List In) (st : St) (i : In) (h : Inv c hist st) :
     Inv c (hist ++ [i]) (step true c st i).1 := by
+  obtain ⟨hst, h⟩ := h
+  refine ⟨by rw [stAfter_snoc, ← hst], ?_⟩
   cases i with
   | malformedTlv =>
     intro hs; obtain ⟨a, hp, h1, h2⟩ := h hs
@@ -51,35 +59,41 @@ theorem inv_step (c : Nat) (hist : List In) (st : St) (i : In) (h : Inv c hist s
   | badState n =>
     intro hs; obtain ⟨a, hp, h1, h2⟩ := h hs
     exact ⟨a, provedNow_snoc_noop _ hp rfl, h1, h2⟩
-  | m1 => simp only [step]; split <;> simp [Inv, reset]
+  | m1 => simp only [step, stepR]; split <;> simp [reset]
   | m3 A p =>
-    simp only [step]
+    simp only [step, stepR]
     split
-    · simp [Inv, reset]
+    · simp [reset]
     · cases A with
-      | bad n => simp [Inv, reset]
+      | bad n => simp [reset]
       | good a =>
         simp only
         split
         · rename_i hp
           intro _
-          exact ⟨a, ⟨hist, [], by simp [hp], by simp⟩, rfl, rfl⟩
-        · simp [Inv]
+          cases p with
+          | validFor c' e' a' ok =>
+            simp [proofOk] at hp
+            obtain ⟨⟨⟨rfl, rfl⟩, rfl⟩, rfl⟩ := hp
+            exact ⟨a', ⟨hist, [], by simp [← hst], by simp⟩, by simp, by simp⟩
+          | garbage n => simp [proofOk] at hp
+          | empty => simp [proofOk] at hp
+        · simp
   | m5 d =>
-    simp only [step]
+    simp only [step, stepR]
     split
-    · simp [Inv, reset]
+    · simp [reset]
     · cases d with
-      | short n => simp [Inv, reset]
+      | short n => simp [reset]
       | sealed k nonceOk intact pt =>
         simp only
         split
-        · simp [Inv, reset]
-        · simp [Inv]
+        · simp [reset]
+        · simp
         · rename_i name key sig _
           cases key with
-          | badLen n => simp [Inv, reset]
-          | pk kn => simp only; split <;> simp [Inv, reset]
+          | badLen n => simp [reset]
+          | pk kn => simp only; split <;> simp [reset]
 
 theorem inv_after (c : Nat) (pre hist : List In) (st : St) (h : Inv c pre st) :
     Inv c (pre ++ hist) (stAfter true c st hist) := by
@@ -89,6 +103,44 @@ theorem inv_after (c : Nat) (pre hist : List In) (st : St) (h : Inv c pre st) :
     have := ih (pre ++ [i]) _ (inv_step c pre st i h)
     simpa [stAfter, List.append_assoc] using this
 
+/-- the number of the SRP session never goes down, and it goes up by one exactly when a start request is accepted after
+    an earlier one had been -/
+theorem epoch_step (c : Nat) (st : St) (i : In) :
+    (step true c st i).1.epoch = st.epoch ∨
+    (i = .m1 ∧ st.step = .waiting ∧ st.started = true ∧ (step true c st i).1.epoch = st.epoch + 1) := by
+  cases i with
+  | malformedTlv => simp [step, stepR]
+  | badMethod => simp [step, stepR]
+  | badState n => simp [step, stepR]
+  | m1 =>
+    simp only [step, stepR]
+    split
+    · simp [reset]
+    · rename_i hw
+      cases hs : st.started <;> simp_all
+  | m3 A p =>
+    simp only [step, stepR]
+    split
+    · simp [reset]
+    · cases A with
+      | bad n => simp [reset]
+      | good a => simp only; split <;> simp
+  | m5 d =>
+    simp only [step, stepR]
+    split
+    · simp [reset]
+    · cases d with
+      | short n => simp [reset]
+      | sealed k nonceOk intact pt =>
+        simp only
+        split
+        · simp [reset]
+        · simp
+        · rename_i name key sig _
+          cases key with
+          | badLen n => simp [reset]
+          | pk kn => simp only; split <;> simp [reset]
+
 /-- one-step characterisation of the save effect (both directions) -/
 theorem step_save_iff (c : Nat) (st : St) (i : In) (n k : Nat) :
     (step true c st i).2.2 = some (n, k) ↔
@@ -96,19 +148,19 @@ theorem step_save_iff (c : Nat) (st : St) (i : In) (n k : Nat) :
   constructor
   · intro hs
     cases i with
-    | malformedTlv => simp [step] at hs
-    | badMethod => simp [step] at hs
-    | badState m => simp [step] at hs
-    | m1 => simp only [step] at hs; split at hs <;> simp at hs
+    | malformedTlv => simp [step, stepR] at hs
+    | badMethod => simp [step, stepR] at hs
+    | badState m => simp [step, stepR] at hs
+    | m1 => simp only [step, stepR] at hs; split at hs <;> simp at hs
     | m3 A p =>
-      simp only [step] at hs
+      simp only [step, stepR] at hs
       split at hs
       · simp at hs
       · cases A with
         | bad m => simp at hs
         | good a => simp only at hs; split at hs <;> simp at hs
     | m5 d =>
-      simp only [step] at hs
+      simp only [step, stepR] at hs
       split at hs
       · simp at hs
       · rename_i hstep
@@ -144,7 +196,7 @@ theorem step_save_iff (c : Nat) (st : St) (i : In) (n k : Nat) :
                 · simp at hopen
               · simp at hs
   · rintro ⟨hstep, rfl⟩
-    simp [step, hstep, openSealed, sigOk]
+    simp [step, stepR, hstep, openSealed, sigOk]
 
 -- several connections: a connection's controller state depends only on its own messages -------------------------------
 
